@@ -26,6 +26,7 @@
 #include <algorithm>
 #include <cstdarg>
 #include <cstring>
+#include <vector>
 #include <cassert>
 
 #include <rtosc/pretty-format.h>
@@ -123,10 +124,14 @@ const char* get_value_from_runtime(void* runtime, const Ports& ports,
     memset(buffer_with_port + addr_len, 0, 8); // cover string end and arguments
     buffer_with_port[addr_len + (4-addr_len%4)] = ',';
 
-    d.message = buffer_with_port;
+    // the reply is printed right behind the port name: dispatch a copy of the
+    // message, or the ports tried after the one that replied would be
+    // matched against "<name><printed value>"
+    const std::vector<char> msg(buffer_with_port,
+                                buffer_with_port + addr_len + (4-addr_len%4) + 4);
+    d.message = msg.data();
 
-    // buffer_with_port is a message in this call:
-    ports.dispatch(buffer_with_port, d, false);
+    ports.dispatch(msg.data(), d, false);
 
     return d.value();
 }
